@@ -343,6 +343,13 @@ pub fn commb_for(rng: &mut Rng, reg: &str, ac13: u16) -> [u8; 7] {
                         b.set(s + 1, 10, 0);
                     }
                 }
+                // the two rates measure the same motion: most of the time they agree within a step or two of 32 ft/min
+                if b.get(35, 1) == 1 && b.get(46, 1) == 1 && rng.chance(0.6) {
+                    let baro = b.get(36, 10) as i64; // sign + 9 bits, two's complement
+                    let baro = if baro >= 512 { baro - 1024 } else { baro };
+                    let ins = (baro + rng.range(-2, 2)).clamp(-187, 187);
+                    b.set(47, 10, (ins & 0x3ff) as u64);
+                }
             }
         }
         "bds65" => {
